@@ -259,28 +259,29 @@ class SerializationMethodVisitor(
                     },
                     fallback,
                 )
-        else:
+        # general case, also used when the TypedDict alternatives don't hold the
+        # discriminator under one and the same field name
 
-            def typed_dict_field(tp: AnyType) -> Optional[str]:
-                if is_typed_dict(get_origin_or_type2(tp)):
-                    for field in object_fields(tp, serialization=True).values():
-                        if field.alias == discriminator.alias:
-                            return field.name
-                return None
+        def typed_dict_field(tp: AnyType) -> Optional[str]:
+            if is_typed_dict(get_origin_or_type2(tp)):
+                for field in object_fields(tp, serialization=True).values():
+                    if field.alias == discriminator.alias:
+                        return field.name
+            return None
 
-            alternatives = [
-                DiscriminatedAlternative(
-                    expected_class(tp),
-                    self.visit(tp),
-                    self.aliaser(discriminator.alias),
-                    key,
-                    typed_dict_field(tp),
-                )
-                for key, tp in discriminator.get_mapping(types).items()
-            ]
-            # alternatives are selected with isinstance: subclasses must come first
-            alternatives.sort(key=lambda alt: -len(getattr(alt.cls, "__mro__", ())))
-            return UnionMethod(tuple(alternatives), fallback)
+        alternatives = [
+            DiscriminatedAlternative(
+                expected_class(tp),
+                self.visit(tp),
+                self.aliaser(discriminator.alias),
+                key,
+                typed_dict_field(tp),
+            )
+            for key, tp in discriminator.get_mapping(types).items()
+        ]
+        # alternatives are selected with isinstance: subclasses must come first
+        alternatives.sort(key=lambda alt: -len(getattr(alt.cls, "__mro__", ())))
+        return UnionMethod(tuple(alternatives), fallback)
 
     def annotated(self, tp: AnyType, annotations: Sequence[Any]) -> SerializationMethod:
         for annotation in reversed(annotations):
